@@ -17,6 +17,13 @@
 (*   MechMemoNoKind   memo keyed without the element kind  (in-model       *)
 (*   MechMemoNoDest   ... without the destination          mutants: TLC    *)
 (*   MechMemoNoK      ... without k                        must refute)    *)
+(*   MechMemoNoCv     ... without the version of the source's face centres *)
+(*   MechTreeReuse    no memo, but the tree in the grid's slot is reused   *)
+(*                    when kind and coordinate type agree (reconstruct     *)
+(*                    ignored): stale after Recentre                       *)
+(* Recentre = Grid.construct_face_centers on the source grid between calls *)
+(* (its face centres were supplied by the source and differ from the       *)
+(* recomputed ones).                                                       *)
 (* Invariant Independent: used = needed, for every call of every history.  *)
 (*                                                                         *)
 (* A dataset-level call remaps one variable per element kind, in the order *)
@@ -33,26 +40,37 @@
 EXTENDS Naturals, Sequences, FiniteSets, TLC, Json, IOUtils
 
 CONSTANTS Kinds, Coords, Meths, Levels, Dests,   \* the call alphabet
-          MaxLen, MaxDiff, Mech
+          MaxLen, MaxDiff, Mech,
+          Shape        \* "calls": remap calls only; "any": also Recentre anywhere;
+                       \* "recentre_mid": call, Recentre, call
 
-VARIABLES memo, hist, n, last
+VARIABLES memo,   \* the memoised search (or None)
+          tree,   \* what the source grid's ball-tree slot was built for: [kind, coord, cv]
+          cv,     \* version of the source grid's face centres (0 = as supplied, 1 = recomputed)
+          hist, n, last
 
-vars == <<memo, hist, n, last>>
+vars == <<memo, tree, cv, hist, n, last>>
 
 KindsDefault == { "nodes", "face centers", "edge centers" }
 KindOrder    == << "nodes", "face centers", "edge centers" >>
 \* method names: "nn" (k = 1), "idw2", "idw3" (k = 2, 3; power 2)
 KOf(m) == CASE m = "nn" -> 1 [] m = "idw2" -> 2 [] m = "idw3" -> 3 [] OTHER -> 0
 
-Fields == { "kind", "dest", "coord", "remapTo", "k" }
-MechIntended   == [ memo |-> FALSE, key |-> Fields ]
-MechObserved   == [ memo |-> FALSE, key |-> Fields ]
-MechMemoFull   == [ memo |-> TRUE,  key |-> Fields ]
-MechMemoNoKind == [ memo |-> TRUE,  key |-> Fields \ {"kind"} ]
-MechMemoNoDest == [ memo |-> TRUE,  key |-> Fields \ {"dest"} ]
-MechMemoNoK    == [ memo |-> TRUE,  key |-> Fields \ {"k"} ]
+Fields == { "kind", "dest", "coord", "remapTo", "k", "cv" }
+\* memo: keep the last search and reuse it when the key fields agree;
+\* reuseTree: reuse the tree in the grid's slot when kind and coordinate type agree (i.e. ignore
+\* reconstruct = TRUE) instead of building it from the coordinates the grid reports now
+MechIntended   == [ memo |-> FALSE, key |-> Fields, reuseTree |-> FALSE ]
+MechObserved   == [ memo |-> FALSE, key |-> Fields, reuseTree |-> FALSE ]
+MechMemoFull   == [ memo |-> TRUE,  key |-> Fields, reuseTree |-> FALSE ]
+MechMemoNoKind == [ memo |-> TRUE,  key |-> Fields \ {"kind"}, reuseTree |-> FALSE ]
+MechMemoNoDest == [ memo |-> TRUE,  key |-> Fields \ {"dest"}, reuseTree |-> FALSE ]
+MechMemoNoK    == [ memo |-> TRUE,  key |-> Fields \ {"k"}, reuseTree |-> FALSE ]
+MechMemoNoCv   == [ memo |-> TRUE,  key |-> Fields \ {"cv"}, reuseTree |-> FALSE ]
+MechTreeReuse  == [ memo |-> FALSE, key |-> Fields, reuseTree |-> TRUE ]
 
-None == [ kind |-> "none", dest |-> 0, coord |-> "none", remapTo |-> "none", k |-> 0 ]
+None   == [ kind |-> "none", dest |-> 0, coord |-> "none", remapTo |-> "none", k |-> 0, cv |-> 0 ]
+NoTree == [ kind |-> "none", coord |-> "none", cv |-> 0 ]
 
 \* a dataset-level call does not name a kind: canonical value "nodes"
 Calls == { c \in [ kind : Kinds, remapTo : Kinds, coord : Coords, meth : Meths, level : Levels, dest : Dests ] :
@@ -60,42 +78,70 @@ Calls == { c \in [ kind : Kinds, remapTo : Kinds, coord : Coords, meth : Meths, 
 CallFields == { "kind", "remapTo", "coord", "meth", "level", "dest" }
 Diff(a, b) == { f \in CallFields : a[f] # b[f] }
 
-Need(c, kind) == [ kind |-> kind, dest |-> c.dest, coord |-> c.coord, remapTo |-> c.remapTo, k |-> KOf(c.meth) ]
+\* only the face centres have versions
+Need(c, kind) == [ kind |-> kind, dest |-> c.dest, coord |-> c.coord, remapTo |-> c.remapTo, k |-> KOf(c.meth),
+                   cv |-> IF kind = "face centers" THEN cv ELSE 0 ]
 Needs(c) == IF c.level = "da" THEN << Need(c, c.kind) >>
             ELSE [ i \in 1..3 |-> Need(c, KindOrder[i]) ]
 
-Hit(m, need) == Mech.memo /\ m # None /\ \A f \in Mech.key : m[f] = need[f]
-\* one search: what is used, and the memo afterwards
-UsedOf(m, need) == IF Hit(m, need) THEN m ELSE need
-MemoOf(m, need) == IF ~Mech.memo THEN None ELSE IF Hit(m, need) THEN m ELSE need
+Hit(m, need)     == Mech.memo /\ m # None /\ \A f \in Mech.key : m[f] = need[f]
+TreeHit(t, need) == Mech.reuseTree /\ t.kind = need.kind /\ t.coord = need.coord
+\* one search: what its values come from, and memo / tree slot afterwards
+UsedOf(m, t, need) == IF Hit(m, need) THEN m
+                      ELSE IF TreeHit(t, need) THEN [ need EXCEPT !.cv = t.cv ] ELSE need
+MemoOf(m, t, need) == IF ~Mech.memo THEN None ELSE UsedOf(m, t, need)
+TreeOf(m, t, need) == IF Hit(m, need) \/ TreeHit(t, need) THEN t
+                      ELSE [ kind |-> need.kind, coord |-> need.coord, cv |-> need.cv ]
 
-RECURSIVE Run(_, _, _)
-Run(m, needs, acc) == IF needs = <<>> THEN << acc, m >>
-                      ELSE Run(MemoOf(m, Head(needs)), Tail(needs), Append(acc, UsedOf(m, Head(needs))))
+RECURSIVE Run(_, _, _, _)
+Run(m, t, needs, acc) ==
+    IF needs = <<>> THEN << acc, m, t >>
+    ELSE Run(MemoOf(m, t, Head(needs)), TreeOf(m, t, Head(needs)), Tail(needs), Append(acc, UsedOf(m, t, Head(needs))))
 
-Do(c) == LET r == Run(memo, Needs(c), <<>>) IN
+PrevCalls == SelectSeq(hist, LAMBDA s : s.op = "remap")
+
+Do(c) == LET r  == Run(memo, tree, Needs(c), <<>>)
+             pc == PrevCalls
+         IN
          /\ n < MaxLen
-         /\ (hist # <<>> => Cardinality(Diff(hist[Len(hist)].call, c)) <= MaxDiff)
+         /\ (Shape = "recentre_mid" => n \in {0, 2})
+         /\ (pc # <<>> => Cardinality(Diff(pc[Len(pc)].call, c)) <= MaxDiff)
          /\ n' = n + 1
          /\ memo' = r[2]
+         /\ tree' = r[3]
+         /\ cv' = cv
          /\ last' = [ need |-> Needs(c), used |-> r[1] ]
-         /\ hist' = Append(hist, [ call |-> c,
-                                   diff |-> IF hist = <<>> THEN {} ELSE Diff(hist[Len(hist)].call, c) ])
+         /\ hist' = Append(hist, [ op |-> "remap", call |-> c,
+                                   diff |-> IF pc = <<>> THEN {} ELSE Diff(pc[Len(pc)].call, c) ])
 
-Init == memo = None /\ hist = <<>> /\ n = 0 /\ last = [ need |-> <<>>, used |-> <<>> ]
-Next == \E c \in Calls : Do(c)
+\* Grid.construct_face_centers on the SOURCE grid: the face centres it reports change
+Recentre == /\ Shape \in {"any", "recentre_mid"}
+            /\ n < MaxLen
+            /\ (Shape = "recentre_mid" => n = 1)
+            /\ cv = 0
+            /\ cv' = 1
+            /\ n' = n + 1
+            /\ UNCHANGED <<memo, tree>>
+            /\ last' = [ need |-> <<>>, used |-> <<>> ]
+            /\ hist' = Append(hist, [ op |-> "recentre" ])
+
+Init == memo = None /\ tree = NoTree /\ cv = 0 /\ hist = <<>> /\ n = 0 /\ last = [ need |-> <<>>, used |-> <<>> ]
+Next == (\E c \in Calls : Do(c)) \/ Recentre
 Spec == Init /\ [][Next]_vars
 
 Independent == last.used = last.need
 Emit == n = MaxLen => PrintT(<<"H", hist>>)
 
 (* ---- judging recorded histories ----------------------------------------------------------- *)
-\* one ndjson line per history: [ id, steps : Seq([ same : BOOLEAN ] or [ err : STRING ]) ]
+\* one ndjson line per history: [ id, steps : Seq([ same : BOOLEAN, kept : BOOLEAN ] or [ err : STRING ]) ]
+\* same: the result equals the same call on freshly built grids (with the same centre version);
+\* kept: the data arrays and every coordinate / connectivity table of the source and destination
+\*       grids have the values they had before the call
 Recs == ndJsonDeserialize(IOEnv.REC_FILE)
-JInit == /\ n \in 1..Len(Recs) /\ memo = None /\ hist = <<>> /\ last = [ need |-> <<>>, used |-> <<>> ]
+JInit == /\ n \in 1..Len(Recs) /\ memo = None /\ tree = NoTree /\ cv = 0 /\ hist = <<>> /\ last = [ need |-> <<>>, used |-> <<>> ]
 JNext == UNCHANGED vars
 StepFailed(s) == IF "err" \in DOMAIN s THEN {"Raises"}
-                 ELSE IF s.same THEN {} ELSE {"HistoryIndependent"}
+                 ELSE (IF s.same THEN {} ELSE {"HistoryIndependent"}) \cup (IF s.kept THEN {} ELSE {"ArgsKept"})
 Judge == LET r == Recs[n]
              f == UNION { { <<i, cl>> : cl \in StepFailed(r.steps[i]) } : i \in 1..Len(r.steps) }
          IN f = {} \/ PrintT(<<"V", r.id, f>>)
